@@ -276,6 +276,26 @@ def rule_fold(ctx):
     ev = run(ctx, fi)
     if not any(p.kind == 'return' and p.value == ('sub', AXES, const(0)) and any(a[0] == 'cmp' and a[1] == '==' and a[3] == const(1) and pol for a, pol in p.guards) for p in ev.paths):
         ctx.violated('R2', fi, 'recursion end', 'a single axis must be returned unchanged (len(axes) == 1)')
+    # an operand may be left out of the fold only when it is the [None] placeholder axis of a broadcast dimension (its first label *is* None)
+    AX0 = ('sub', AXES, const(0))
+    ndrop = 0
+    for p in ret_paths(ev):
+        v = p.value
+        is_rest = v[0] == 'call' and T.call_name(v) == '_common_axis'
+        if not (v == AX0 or is_rest):
+            continue
+        if v == AX0 and any(a[0] == 'cmp' and a[1] == '==' and a[3] == const(1) and T.contains(a[2], AXES) and not T.contains(a[2], ('name', '_common_axis')) and pol for a, pol in p.guards):
+            continue                # recursion end: a single axis
+        dropped = [x for a, pol in p.guards for x in [a] if pol is True and a[0] == 'cmp' and a[1] == 'is' and a[3] == T.CONST_NONE and a[2][0] == 'sub' and a[2][2] == const(0)]
+        want_dropped = AX0 if is_rest else None
+        okd = any((d[2][1] == AX0) if is_rest else (d[2][1][0] == 'call' and T.call_name(d[2][1]) == '_common_axis') for d in dropped)
+        ndrop += 1
+        if not okd:
+            ctx.violated('R2', fi, 'operand left out of the fold', '_common_axis returns %s alone on a path that has not established that the other operand is the [None] placeholder '
+                         '(`X[0] is None`): the labels of a real input are dropped from the union / intersection (guards: %s)' % (
+                             'the common axis of axes[1:]' if is_rest else 'axes[0]', '; '.join('%s=%s' % (T.show(a)[:50], pol) for a, pol in p.guards[-3:])), node=p.node)
+    if ndrop:
+        ctx.holds('R2', '_common_axis: an operand is skipped only when its first label is None (%d paths)' % ndrop)
     # _get_aligned_axes collection
     fi = ctx.fn(AL + '_get_aligned_axes')
     ARR = P_('arrays')
@@ -775,6 +795,10 @@ def check(ctx):
     rule_union_direction(ctx)
     rule_fold_direction(ctx)
     rule_empty_labels(ctx)
+    # the labels of newly inserted positions are written through Axis.__setitem__ (shared with C05)
+    from . import c05 as _c05
+    ctx.rule('R14', 'Axis.__setitem__ keeps the widened label buffer it writes into', 1)
+    _c05.rule_axis_setitem(ctx, 'R14')
     rule_env(ctx)
     # the reindex step that align() delegates to (each input keeps its data at its labels, NaN elsewhere)
     from . import c07
